@@ -1105,7 +1105,7 @@ static void IRP_Cleanup(PInputTag PInp) {
 
 static Boolean IRP_GetPos(PInputTag PInp, char* dest, size_t DestSize) {
     int         z, ParZ = PInp->ParZ, LineZ = PInp->LineZ;
-    int         ParIter = PInp->ParIter == 0 ? PInp->ParIter : 1;
+    int         ParIter = PInp->ParIter == 0 ? 1 : PInp->ParIter;
     char const* IRPType;
     String      buffer;
     char*       IRPVal;
